@@ -1,6 +1,7 @@
 """C17 — a transaction's changed entities are exactly the versions it wrote."""
 import corebase as B
-from corebase import run_impl  # noqa: F401
+import env as E
+import hist
 
 PROP = 'C17'
 CHECK_MODS = list(B.CHECK_MODS) + ['Checks.C17chk']
@@ -39,14 +40,77 @@ def gen_cases(rng, n, tier):
             if op[0] == 'flush' and rng.random() < 0.35:
                 prog.append(['readnames'])
         c['prog'] = prog
+    # objects the flush itself deletes (delete-orphan behind a one-directional relationship): their class is changed too
+    import pC07
+    for i in range(max(10, n // 25)):
+        cases.append(dict(kind='O', cfg=dict(shape='orphan', strategy='validity' if i % 2 else 'subquery', oneway=True),
+                          prog=pC07.gen_orphan_prog(rng)))
     return cases
 
 
+def _worker_O(chunk):
+    """kind 'O': parent with delete-orphan children behind a one-directional relationship (pC07's orphan shape) and the
+    TransactionChangesPlugin; after the run the recorded class names of every transaction are compared with the
+    classes that have a version row carrying its id"""
+    import sqlalchemy as sa
+    import pC07
+    from sqlalchemy_continuum.plugins import TransactionChangesPlugin
+    cfg, items = chunk
+    out = []
+    for idx, case in items:
+        problem = None
+        try:
+            with E.Env(options=hist.options_for(cfg), plugins=[TransactionChangesPlugin()], build=pC07.build_orphan(cfg)) as env:
+                outcomes, _live = pC07._run_orphan(env, case['prog'])
+                if any(o.startswith('error') for o in outcomes):
+                    problem = 'the program failed: %r' % outcomes
+                conn = env.connection
+                names = {}
+                chg = env.Base.metadata.tables['transaction_changes']
+                for r in conn.execute(sa.select(chg.c.transaction_id, chg.c.entity_name)):
+                    names.setdefault(r[0], set()).add(r[1])
+                written = {}
+                for cls in env.classes:
+                    vt = env.version_class(cls).__table__
+                    for r in conn.execute(sa.select(vt.c.transaction_id).distinct()):
+                        written.setdefault(r[0], set()).add(cls.__name__)
+                conn.rollback()
+                for tx in sorted(set(names) | set(written)):
+                    if names.get(tx, set()) != written.get(tx, set()) and problem is None:
+                        problem = 'transaction %s: recorded names %r, classes with a version row %r' % (
+                            tx, sorted(names.get(tx, set())), sorted(written.get(tx, set())))
+        except Exception as e:
+            problem = '%s: %s' % (type(e).__name__, str(e)[:200])
+        out.append((idx, dict(kind='O', trace=[], snaps=[], ccfg=[], outcomes=[], changed_entities=None, exc=problem)))
+    return out
+
+
+def run_impl(cases):
+    res = [None] * len(cases)
+    hs = [(i, c) for i, c in enumerate(cases) if c.get('kind') != 'O']
+    for (i, _), o in zip(hs, hist.run_impl([c for _, c in hs])):
+        res[i] = o
+    os_ = [(i, c) for i, c in enumerate(cases) if c.get('kind') == 'O']
+    chunks = [(c['cfg'], [(i, c)]) for i, c in os_]
+    for part in E.pmap(_worker_O, chunks):
+        for idx, o in part:
+            res[idx] = o
+    return res
+
+
 def encode(case, obs):
+    if case.get('kind') == 'O':
+        return '(C17_O %s)' % hist.encode_case(case, dict(obs, trace=[], snaps=[], ccfg=[]))
     return '(%s %s)' % ('C17_O' if case.get('obs_only') else 'C17_H', B.encode(case, obs))
 
 
+def classify_guard(case):
+    return case.get('kind') != 'O'
+
+
 def classify(case, obs):
+    if case.get('kind') == 'O':
+        return None
     """Open finding F-C17-class-change-drops-child-part: within one transaction a joined-table child (class 1 of the inh
     shape) is deleted and flushed and its key is added again as a class without the child table."""
     if not case.get('obs_only') or case['cfg'].get('shape') != 'inh':
@@ -68,6 +132,8 @@ def classify(case, obs):
 
 
 def shrink(case):
+    if case.get('kind') == 'O':
+        return []
     out = B.shrink(case)
     for c in out:
         if case.get('obs_only'):
@@ -104,7 +170,15 @@ def nontrivial(case, obs):
     return False
 
 
-features = B.features_counted
-describe = B.describe_short
+def features(case, obs):
+    if case.get('kind') == 'O':
+        return ['kind=orphan-oneway', 'strategy=' + case['cfg']['strategy']]
+    return B.features_counted(case, obs)
+
+
+def describe(case, obs):
+    if case.get('kind') == 'O':
+        return dict(cfg=case['cfg'], program=case['prog'], problem=obs.get('exc'))
+    return B.describe_short(case, obs)
 
 classify_corr = B.classify_corr
